@@ -78,3 +78,131 @@ fn c03_one_frame_plus_fragment() {
     wit!(ty == 200);
     core::mem::forget(ms);
 }
+
+/// Writes a minimal contiguous type-31 message (message header + 32-byte data header with one
+/// ELV block: 28 + 32 + 4 + 12 = 76 bytes) at `o`.
+fn put_type31(b: &mut [u8], o: usize, hdr: &[u8; 28], el: u8) -> usize {
+    put_header(b, o, 31, hdr);
+    let h = o + 28;
+    b[h + 22] = el;
+    b[h + 31] = 1;
+    b[h + 35] = 36;
+    b[h + 36] = b'R';
+    b[h + 37] = b'E';
+    b[h + 38] = b'L';
+    b[h + 39] = b'V';
+    76
+}
+
+/// Two messages: [frame of any non-31 type][type-31] or [type-31][frame], chosen by a concrete
+/// const so that offsets stay concrete; type codes, headers and the elevation number are symbolic.
+/// Count, order, headers and contents kinds must be those of the messages decoded alone.
+fn two_messages<const FRAME_FIRST: bool>() {
+    let mut b = [0u8; FRAME + 76];
+    let h1: [u8; 28] = kani::any();
+    let h2: [u8; 28] = kani::any();
+    let ty: u8 = kani::any();
+    kani::assume(ty != 31);
+    let el: u8 = kani::any();
+    if FRAME_FIRST {
+        put_header(&mut b, 0, ty, &h1);
+        put_type31(&mut b, FRAME, &h2, el);
+    } else {
+        put_type31(&mut b, 0, &h1, el);
+        put_header(&mut b, 76, ty, &h2);
+    }
+    let mut c = Cursor::new(&b[..]);
+    let ms = match decode_messages(&mut c) {
+        Ok(ms) => ms,
+        Err(e) => {
+            core::mem::forget(e);
+            panic!("C03: a well-formed two-message stream failed to decode")
+        }
+    };
+    assert!(ms.len() == 2, "C03: two messages in, two messages out");
+    let (fi, ri) = if FRAME_FIRST { (0, 1) } else { (1, 0) };
+    check_header(&ms[fi], ty, if FRAME_FIRST { &h1 } else { &h2 });
+    check_header(&ms[ri], 31, if FRAME_FIRST { &h2 } else { &h1 });
+    assert!(contents_kind(&ms[fi]) == expected_kind(ty), "C03: wrong contents kind for the frame");
+    match ms[ri].contents() {
+        MessageContents::DigitalRadarData(d) => {
+            assert!(d.header.elevation_number == el, "C03: type-31 message decoded from the wrong position");
+            assert!(d.elevation_data_block.is_some(), "C03: type-31 block lost");
+        }
+        _ => panic!("C03: type-31 message surfaced as something else"),
+    }
+    wit!(ty == 2);
+    wit!(ty == 15);
+    core::mem::forget(ms);
+}
+
+#[kani::proof]
+#[kani::unwind(30)]
+#[kani::stub(alloc::fmt::format, crate::stubs::fmt_format)]
+#[kani::stub(<[u8; 4] as core::convert::TryFrom<&[u8]>>::try_from, crate::stubs::array_try_from)]
+fn c03_frame_then_type31() {
+    two_messages::<true>();
+}
+
+#[kani::proof]
+#[kani::unwind(30)]
+#[kani::stub(alloc::fmt::format, crate::stubs::fmt_format)]
+#[kani::stub(<[u8; 4] as core::convert::TryFrom<&[u8]>>::try_from, crate::stubs::array_try_from)]
+fn c03_type31_then_frame() {
+    two_messages::<false>();
+}
+
+/// A stream cut inside a message body is an error, not a silently shortened list: one complete
+/// frame followed by a second header and a body cut after 0..=100 bytes.
+#[kani::proof]
+#[kani::unwind(30)]
+#[kani::stub(alloc::fmt::format, crate::stubs::fmt_format)]
+fn c03_cut_inside_body() {
+    let mut b = [0u8; FRAME + 28 + 100];
+    let h1: [u8; 28] = kani::any();
+    let h2: [u8; 28] = kani::any();
+    let ty1: u8 = kani::any();
+    let ty2: u8 = kani::any();
+    kani::assume(ty1 != 31 && ty2 != 31);
+    put_header(&mut b, 0, ty1, &h1);
+    put_header(&mut b, FRAME, ty2, &h2);
+    let k: usize = kani::any();
+    kani::assume(k <= 100);
+    let mut c = Cursor::new(&b[..FRAME + 28 + k]);
+    let r = decode_messages(&mut c);
+    assert!(r.is_err(), "C03: a stream cut inside a message body must be an error");
+    wit!(k == 0);
+    wit!(k == 100 && ty2 == 2);
+    core::mem::forget(r);
+}
+
+/// Two fixed-length frames in a row, both type codes (non-31) and both headers symbolic - in
+/// particular equal types with any segment numbers: two in, two out, each with its own header.
+#[kani::proof]
+#[kani::unwind(30)]
+#[kani::stub(alloc::fmt::format, crate::stubs::fmt_format)]
+fn c03_two_frames() {
+    let mut b = [0u8; 2 * FRAME];
+    let h1: [u8; 28] = kani::any();
+    let h2: [u8; 28] = kani::any();
+    let ty1: u8 = kani::any();
+    let ty2: u8 = kani::any();
+    kani::assume(ty1 != 31 && ty2 != 31);
+    put_header(&mut b, 0, ty1, &h1);
+    put_header(&mut b, FRAME, ty2, &h2);
+    let mut c = Cursor::new(&b[..]);
+    let ms = match decode_messages(&mut c) {
+        Ok(ms) => ms,
+        Err(e) => {
+            core::mem::forget(e);
+            panic!("C03: a well-formed two-frame stream failed to decode")
+        }
+    };
+    assert!(ms.len() == 2, "C03: two frames in, two messages out");
+    check_header(&ms[0], ty1, &h1);
+    check_header(&ms[1], ty2, &h2);
+    assert!(contents_kind(&ms[0]) == expected_kind(ty1) && contents_kind(&ms[1]) == expected_kind(ty2));
+    wit!(ty1 == ty2 && ty1 == 15);
+    wit!(ty1 == 2 && ty2 == 5);
+    core::mem::forget(ms);
+}
